@@ -13,7 +13,7 @@ def run(tier, seed):
                          'components are the 2-valued function) are proved over the spec. Tier B (bounded): real LogicSim(m=4,8) vs the netlist oracle on the circuit space.')
     res.report = verify(logic_sim_c.targets(ms=(4, 8), callback=(False,)) + logic_sim_c.composition_targets(ms=(4, 8)) + [logic_sim_c.lifting_lemmas(), logic_sim_c.xsound_lemmas()] + logic_io_c.targets((2, 3)),
                         timeout_s=20 if tier == 'quick' else 120)
-    res.bounded = [logic_drv.logic_part('C02', (4, 8), tier, seed)]
+    res.bounded = [logic_drv.logic_part('C02', (4, 8), tier, seed, options=({}, {'c_reuse': True}))]
     res.assumptions = ['requires of the loop contract on real SimOps instances (scratch rows, output row != operand rows): bounded part only',
                        'lifting of L-Xsound / L-8v2v from primitives to whole circuits is a structural induction done on paper (DESIGN.md 5-C02)',
                        'translation, assign/capture and the composition to netlist level: bounded part only',
